@@ -58,21 +58,23 @@ type actor struct {
 	noPark   bool
 
 	// caller state
-	ctx         context.Context
-	cancelFn    context.CancelFunc
-	cancelled   bool
-	done        bool
-	doneCh      chan struct{}
-	err         error
-	probe       bool
-	inInvoke    *fakeConn
-	lastConn    *fakeConn
-	lastHook    string // last acquire-path hook of the current acquire iteration
-	iterStart   int64  // lower bound of the start of the current acquire iteration
-	pendingIter int64
-	acqStart    int64  // lower bound of the start of the current acquire call
-	openRel     int    // index into w.relOps of the release whose end is not yet known, -1
-	pos         string // filled by settle for callers blocked inside the pool
+	ctx             context.Context
+	cancelFn        context.CancelFunc
+	cancelled       bool
+	done            bool
+	doneCh          chan struct{}
+	err             error
+	probe           bool
+	inInvoke        *fakeConn
+	lastConn        *fakeConn
+	lastHook        string // last acquire-path hook of the current acquire iteration
+	iterStart       int64  // lower bound of the start of the current acquire iteration
+	pendingIter     int64
+	acqStart        int64  // lower bound of the start of the current acquire call
+	openRel         int    // index into w.relOps of the release whose end is not yet known, -1
+	pos             string // filled by settle for callers blocked inside the pool
+	starvedReported bool
+	creating        *fakeConn // connection constructed by this actor in its current acquire iteration
 
 	conn *fakeConn // runner
 }
@@ -332,6 +334,7 @@ func (w *world) factory() pool.Conn {
 		}
 	}
 	w.conns = append(w.conns, f)
+	a.creating = f
 	w.logf(t, "conn.created", a, f.idx)
 	if w.max >= 1 && int64(live+1) > w.max {
 		w.violate("C27", "limit-exceeded|live-connections>max", fmt.Sprintf("K%d constructed while %d live connections exist, max=%d", f.idx, live, w.max))
@@ -369,6 +372,9 @@ func (w *world) hook(point string) {
 			f = a.conn
 		case akCaller:
 			f = a.lastConn
+			if a.lastHook == hpCounted && a.creating != nil {
+				f = a.creating // death declared by the creator for the connection it is creating
+			}
 		}
 		if f != nil && f.deadAt == 0 {
 			f.deadAt = t
@@ -381,6 +387,9 @@ func (w *world) hook(point string) {
 		return
 	case hpPop, hpCounted, hpWait, hpStuckWoken, hpStuckDeleted:
 		a.lastHook = point
+		if point != hpCounted {
+			a.creating = nil
+		}
 		// iterStart is a lower bound of the start of the acquire iteration the actor
 		// is in: a hook of a later iteration proves the previous hook preceded the retry.
 		if point == hpPop || point == hpCounted || point == hpWait {
